@@ -27,8 +27,15 @@ pub fn num_cases(ctx: &Ctx, which: Which) -> u64 {
         },
         (Mode::Asan | Mode::Tsan, Tier::Quick) => 1200,
         (Mode::Asan | Mode::Tsan, Tier::Thorough) => 12_000,
-        (Mode::Native, Tier::Quick) => 6000,
-        (Mode::Native, Tier::Thorough) => 120_000,
+        (Mode::Native, Tier::Quick) => match which {
+            Which::C07 => 12_000,
+            Which::C13 => 40_000,
+            Which::C15 => 30_000,
+        },
+        (Mode::Native, Tier::Thorough) => match which {
+            Which::C07 => 150_000,
+            _ => 400_000,
+        },
     }
 }
 
@@ -285,7 +292,9 @@ fn c13(ctx: &mut Ctx, idx: u64, case: &Case, p: &Pma<u32>) {
     // outcome is a panic (search method that does not fit the automaton's match kind). A panic or
     // a normal return is finite; only exceeding the logical step budget is a refuting event.
     let wrong: &[Method] = if spec.kind == MatchKind::Standard { &[Method::Leftmost] } else { &Method::STANDARD };
-    for hay in case.haystacks.iter().filter(|h| !h.is_empty()).take(2) {
+    // (skipped under libFuzzer, whose panic hook aborts on the documented panic)
+    let n_mis = if ctx.flavour == "fuzz" { 0 } else { 2 };
+    for hay in case.haystacks.iter().filter(|h| !h.is_empty()).take(n_mis) {
         for &m in wrong {
             let n = hay.len() as u64;
             let budget = (n + 1) * (ns + 1) * 2 + 64;
